@@ -329,8 +329,13 @@ def gen_case(rng, idx, tier):
             if c not in t:
                 targets.insert(rng.randint(0, len(targets)), [c[0], c[1], []])
                 tags.append("empty-core-set")
+    # one case in seven: the caller re-uses its targets dictionary (clears it) between the call and the first look at
+    # the pairs -- the pairs must be those of the cores requested by the call
+    reuse = len(targets) % 7 == 3
+    if reuse:
+        tags.append("caller-clears-targets-before-reading-the-pairs")
     return dict(mode="compress", targets=targets, container=container, tags=sorted(set(tags)), order=order,
-                valid=True)
+                valid=True, clear_after_call=reuse)
 
 
 def gen_blocks_late(rng, small=False):
